@@ -1,10 +1,11 @@
 use std::{cell::RefCell, collections::BTreeSet};
 
 use jrsonnet_evaluator::{
-	bail,
+	bail, ensure_sufficient_stack,
 	error::{ErrorKind::*, Result},
 	function::{builtin, CallLocation, FuncVal},
 	manifest::JsonFormat,
+	stack::check_depth,
 	typed::{Either2, Either4},
 	val::{equals, ArrValue},
 	Either, IStr, ObjValue, ObjValueBuilder, ResultExt, Thunk, Val,
@@ -172,6 +173,8 @@ pub fn builtin_merge_patch(target: Val, patch: Val) -> Result<Val> {
 	let Some(patch) = patch.as_obj() else {
 		return Ok(patch);
 	};
+	// Counted against the stack limit: a patch that contains itself must end in an error
+	let _depth = check_depth()?;
 	let target = target.as_obj().unwrap_or_else(ObjValue::empty);
 	let target_fields = target
 		.fields(
@@ -211,7 +214,9 @@ pub fn builtin_merge_patch(target: Val, patch: Val) -> Result<Val> {
 		}
 		let field_target = target.get(field.clone())?.unwrap_or(Val::Null);
 		out.field(field.clone())
-			.value(builtin_merge_patch(field_target, field_patch)?);
+			.value(ensure_sufficient_stack(|| {
+				builtin_merge_patch(field_target, field_patch)
+			})?);
 	}
 	Ok(out.build().into())
 }
